@@ -145,6 +145,7 @@ class Engine:
         g = bu.ScriptGen(s, rng, styles=styles)
         g.gen_api = gen_api and s.name in self.HG
         g.corder = self.corder.get(s.name)
+        g.thash = self.thash.get(s.name)
         if full: g.create_bias = 1.0
         o = dict(opts or self.toplevel_opts(rng, s, root))
         if o['style'] == 'c' and bu.has_nested(node):
